@@ -75,7 +75,7 @@ def replay_history(uni, mp, g, ps, cls, w, x, letters, name):
             side = OWN[cls] if l == "fin_own" else b"C" if l == "fin_unknown" else PEER[cls]
             r.finish(cur, side + body)
     # outcome class per letter (a restore letter is serialize [+ restore])
-    evs = [e for e in r.t.events if e["op"] != "new"]
+    evs = [e for e in r.t.events if e["op"] not in ("new", "peek")]
     k = 0
     for l in letters:
         e = evs[k]
@@ -110,7 +110,9 @@ def lifecycle_induction(ctx):
              ["--init=IndInit", "--inv=ScalarNeverChanges", "--length=1", "--next=LNext"], False),
             ("guard: a second message breaks the induction", ["--init=IndInit", "--inv=IndInv", "--length=1", "--next=BadNext"], True),
             ("guard: re-drawing the scalar of a restored instance breaks ScalarNeverChanges",
-             ["--init=IndInit", "--inv=ScalarNeverChanges", "--length=1", "--next=BadNext2"], True)]
+             ["--init=IndInit", "--inv=ScalarNeverChanges", "--length=1", "--next=BadNext2"], True),
+            ("guard: a failed start() that leaves a scalar behind breaks the induction",
+             ["--init=IndInit", "--inv=IndInv", "--length=1", "--next=BadNext3"], True)]
     res = {}
     try:
         for name, args, expect_cex in runs:
